@@ -577,7 +577,20 @@ def field_true_heads(m, ty, flag, any_base=False):
 def gated_field(m, ty, flag):
     """field f when the method returns Option: `Some(self.f)` only on blocks dominated by a flag-true head and `None`
     otherwise (a gated accessor), else None"""
-    if not m.local_ty(0).startswith("core::option::Option<") or any(True for _ in m.iter_calls()):
+    if not m.local_ty(0).startswith("core::option::Option<"):
+        return None
+    calls_ = [(b, t, fr) for b, t, fr in m.iter_calls()]
+    if len(calls_) == 1 and calls_[0][2] is not None and lib.tail(mir.fn_name(calls_[0][2]), 2) == "bool::then_some" and len(calls_[0][1]["args"]) == 2:
+        # `self.<flag>.then_some(self.<field>)`: Some(field) exactly where the flag is true
+        b, t, fr = calls_[0]
+        fo = origins(m, t["args"][0])
+        vo = origins(m, t["args"][1])
+        ret_ok = t["dest"]["l"] == 0 or all(o[0] == "call" and o[1] == b for o in origins(m, {"copy": {"l": 0, "p": []}}))
+        if ret_ok and fo and all(o[0] == "arg" and o[1] == 1 and len(o) >= 3 and o[-1].lstrip(".") == flag for o in fo) \
+                and vo and all(o[0] == "arg" and o[1] == 1 and len(o) >= 3 for o in vo) and len({o[2] for o in vo}) == 1:
+            return next(iter(vo))[2].lstrip(".")
+        return None
+    if calls_:
         return None
     heads = field_true_heads(m, ty, flag)
     fields = set()
